@@ -30,12 +30,13 @@ TYPES = {
     "uint16": ("type uint16;", ["uint16:65535", "uint16:0", "uint16:7"]),
     "uint32": ("type uint32;", ["uint32:4294967295", "uint32:0", "uint32:42"]),
     "uint64": ("type uint64;", ["uint64:18446744073709551615", "uint64:0", "uint64:9007199254740993"]),
-    "string": ("type string;", ["str:alpha", "str:x y", "str:k=v", "str:é", "str:Beta-2"]),
+    "string": ("type string;", ["str:alpha", "str:x y", "str:k=v", "str:é", "str:Beta-2", "str:*", "str:a/b]c"]),
     "boolean": ("type boolean;", ["bool:true", "bool:false"]),
     "dec2":   ("type decimal64 { fraction-digits 2; }", ["dec:-1.25", "dec:3.5", "dec:0", "dec:1000000.01"]),
     "enum":   ("type colour;", ["enum:RED", "enum:GREEN", "enum:BLUE"]),
     "idref":  ("type identityref { base vf-ids:SHAPE; }", ["enum:CIRCLE", "enum:SQUARE", "enum:TRI"]),
-    "u-is":   ("type uis;", ["int32:-5", "str:abc", "int32:7", "str:zz"]),
+    "u-is":   ("type uis;", ["int32:-5", "str:abc", "int32:0", "str:zz", "int32:7"]),
+    "u-bu":   ("type ubu;", ["bin:00ff10", "uint16:9", "bin:616263", "uint16:0"]),
     "u-eu":   ("type ueu;", ["enum:E1", "uint32:9", "enum:E2", "uint32:0"]),
     "binary": ("type binary;", ["bin:00ff10", "bin:", "bin:616263"]),
     "empty":  ("type empty;", ["empty"]),
@@ -54,12 +55,14 @@ T_VARIANTS = {
     "t7": ["uint16", "int16",  "idref",  "int64",  "idref",  "uint8", "uint16", "idref",  "int32", "uint32", "uint16", "int16",  "int8",   "uint8", "int64"],
     "t8": ["uint32", "string", "u-eu",   "dec2",   "dec2",   "u-is",  "idref",  "u-eu",   "u-is",  "u-eu",   "int32",  "u-eu",   "dec2",   "u-eu", "dec2"],
     "t9": ["dec2",   "uint8",  "int8",   "enum",   "int16",  "enum",  "dec2",   "int8",   "int64", "int8",   "boolean", "int64",  "uint16", "int64", "boolean"],
+    "t10": ["u-bu",  "u-bu",   "u-bu",   "u-bu",   "string", "u-bu",  "u-bu",   "uint8",  "u-bu",  "int32",  "string", "u-bu",   "u-bu",   "u-bu",  "u-bu"],
 }
 OC_VARIANTS = {
     "o1": ["string", "int32",  "string", "uint8",  "string", "string", "int8",  "string", "uint16", "string", "uint8",  "string", "uint64", "string", "int16"],
     "o2": ["enum",   "uint64", "int32",  "string", "uint32", "idref", "boolean", "enum",  "string", "int16",  "idref",  "dec2",   "enum",   "int32", "enum"],
     "o3": ["u-is",   "dec2",   "u-eu",   "int64",  "u-is",   "u-eu",  "string", "int64",  "u-is",  "enum",   "u-is",   "boolean", "idref",  "u-is", "u-is"],
     "o4": ["int64",  "binary", "uint64", "boolean", "int8",  "binary", "dec2",  "idref",  "int64", "uint64", "int64",  "u-eu",   "dec2",   "dec2", "uint64"],
+    "o5": ["u-bu",   "string", "u-bu",   "u-bu",   "string", "u-bu",  "u-bu",   "uint16", "u-bu",  "string", "string", "u-bu",   "u-bu",   "u-bu", "u-bu"],
 }
 
 
@@ -77,7 +80,8 @@ def gen_tree():
            "  typedef colour { type enumeration { enum RED { value 1; } enum GREEN { value 5; } enum BLUE { value 7; } } }\n"
            "  typedef uis { type union { type int32; type string { pattern '[a-z]+'; } } }\n"
            "  typedef e12 { type enumeration { enum E1; enum E2; } }\n"
-           "  typedef ueu { type union { type e12; type uint32; } }\n\n"]
+           "  typedef ueu { type union { type e12; type uint32; } }\n"
+           "  typedef ubu { type union { type uint16; type binary; } }\n\n"]
     out.append("  container vt {\n")
     for name, types in T_VARIANTS.items():
         r = dict(zip(ROLES, types))
@@ -91,6 +95,7 @@ def gen_tree():
         s += "    list ol {\n      key \"k\";\n      ordered-by user;\n" + leaf("k", r["ok"], "      ") + leaf("v", r["ov"], "      ") + "      container sub {\n" + leaf("w", r["ow"], "        ") + "      }\n    }\n"
         s += "    list m {\n      key \"k1 k2\";\n" + leaf("k1", r["k1"], "      ") + leaf("k2", r["k2"], "      ") + leaf("v", r["mv"], "      ") + "    }\n"
         s += "    list om {\n      key \"k1 k2\";\n      ordered-by user;\n" + leaf("k1", r["k1"], "      ") + leaf("k2", r["k2"], "      ") + leaf("v", r["mv"], "      ") + "    }\n"
+        s += "    list n {\n      key \"y x\";\n" + leaf("y", r["k1"], "      ") + leaf("x", r["k1"], "      ") + leaf("v", r["mv"], "      ") + "    }\n"
         s += "    container st {\n      config false;\n" + leaf("s", r["s"], "      ")
         s += "      list ul {\n" + leaf("u", r["u"], "        ") + "      }\n    }\n"
         s += "  }\n"
@@ -111,7 +116,8 @@ def gen_oc():
            "  typedef colour { type enumeration { enum RED { value 1; } enum GREEN { value 5; } enum BLUE { value 7; } } }\n"
            "  typedef uis { type union { type int32; type string { pattern '[a-z]+'; } } }\n"
            "  typedef e12 { type enumeration { enum E1; enum E2; } }\n"
-           "  typedef ueu { type union { type e12; type uint32; } }\n\n"]
+           "  typedef ueu { type union { type e12; type uint32; } }\n"
+           "  typedef ubu { type union { type uint16; type binary; } }\n\n"]
     out.append("  container vo {\n")
     for name, types in OC_VARIANTS.items():
         r = dict(zip(ROLES, types))
@@ -131,6 +137,9 @@ def gen_oc():
         s += "      }\n    }\n"
         s += "    container ms {\n      list m {\n        key \"k1 k2\";\n        leaf k1 { type leafref { path \"../config/k1\"; } }\n        leaf k2 { type leafref { path \"../config/k2\"; } }\n"
         s += cs(leaf("k1", r["k1"], "          ") + leaf("k2", r["k2"], "          ") + leaf("v", r["mv"], "          "), "", "        ")
+        s += "      }\n    }\n"
+        s += "    container ns {\n      list n {\n        key \"y x\";\n        leaf y { type leafref { path \"../config/y\"; } }\n        leaf x { type leafref { path \"../config/x\"; } }\n"
+        s += cs(leaf("y", r["k1"], "          ") + leaf("x", r["k1"], "          ") + leaf("v", r["mv"], "          "), "", "        ")
         s += "      }\n    }\n"
         s += "    container oms {\n      list om {\n        key \"k1 k2\";\n        ordered-by user;\n        leaf k1 { type leafref { path \"../config/k1\"; } }\n        leaf k2 { type leafref { path \"../config/k2\"; } }\n"
         s += cs(leaf("k1", r["k1"], "          ") + leaf("k2", r["k2"], "          ") + leaf("v", r["mv"], "          "), "", "        ")
@@ -165,9 +174,9 @@ def variants():
     pools = {t: p for t, (_, p) in TYPES.items()}
     # abstract leaf position -> role
     pos = {"c/a": "a", "c/b": "b", "c/ll": "ll", "c/p/x": "x", "l/k": "k", "l/v": "v", "l/sub/w": "w",
-           "ol/k": "ok", "ol/v": "ov", "ol/sub/w": "ow", "m/k1": "k1", "m/k2": "k2", "m/v": "mv", "om/k1": "k1", "om/k2": "k2", "om/v": "mv", "st/s": "s", "st/ul/u": "u"}
+           "ol/k": "ok", "ol/v": "ov", "ol/sub/w": "ow", "m/k1": "k1", "m/k2": "k2", "m/v": "mv", "om/k1": "k1", "om/k2": "k2", "om/v": "mv", "n/y": "k1", "n/x": "k1", "n/v": "mv", "st/s": "s", "st/ul/u": "u"}
     return {"variants": v, "pools": pools, "positions": pos,
-            "lists": {"l": ["k"], "ol": ["k"], "m": ["k1", "k2"], "om": ["k1", "k2"]}, "ordered": ["ol", "om"],
+            "lists": {"l": ["k"], "ol": ["k"], "m": ["k1", "k2"], "om": ["k1", "k2"], "n": ["y", "x"]}, "ordered": ["ol", "om"],
             "leaflists": ["c/ll"], "presence": ["c/p"], "unkeyed": ["st/ul"]}
 
 
